@@ -1,4 +1,5 @@
 import SdJwt.Lemmas.IssuerL
+import SdJwt.Lemmas.IssueAll
 /-!
 # C14 — issuing is total, side-effect free and repeatable
 
@@ -71,3 +72,19 @@ theorem C14_err_independent_of_randomness (c : J) (p : String) (mk1 mk2 : Option
 theorem C14_no_decoys (ms : List (String × J)) (mk : Nat → Option String → J → String) :
     encode (.obj ms) [] mk none none = .ok (.obj ms, []) := by
   simp [encode, applyPaths]
+
+/-- **Valid markings succeed** — including when only nested members or only array elements are
+disclosable (D7): whenever marking the addressed nodes in the given order is defined on the claims
+tree, `applyPaths` returns `ok` (with the payload of the marked tree, see C07_issue) -/
+theorem C14_valid_ok (mk : Nat → Option String → J → String) (paths : List String)
+    (addr : List (List String × String)) (T Tn : MJ) (ds : List SDisc) (wf : T.WF)
+    (hp : ParsedAll paths addr) (h : markAll mk 0 addr T = some (Tn, ds)) :
+    ∃ r, applyPaths mk 0 T.payload paths = .ok r :=
+  ⟨_, (applyPaths_markAll mk paths addr 0 T Tn ds wf hp h).1⟩
+
+/-- non-vacuity with only a nested array element disclosable: `/n/1` in `{"n":["a","b"]}` -/
+example :
+    let T : MJ := .obj (.clear "n" (.arr (.clear (.leaf (.str "a")) (.clear (.leaf (.str "b")) .nil))) .nil) none
+    (markAll (fun _ _ _ => "dg") 0 [(["n"], "1")] T).map (fun r => r.1.payload)
+      = some (.obj [("n", .arr [.str "a", .obj [("...", .str "dg")]])]) := by
+  rfl
